@@ -45,4 +45,57 @@ def crcG : Nat := 2 ^ Gen.Eeprom.CRC_WIDTH + Gen.Eeprom.CRC_POLY
 /-- The message as a polynomial: first byte most significant, each byte MSB first (no reflection). -/
 def msgPoly (bytes : List Nat) : Nat := bytes.foldl (fun a b => a * 256 + b) 0
 
+/-! ### SII image layout (ETG2010 Table 2, ETG1000.6 §5.4) -/
+
+/-- One category: raw type word and body. -/
+structure Cat where
+  type : Nat
+  body : List Nat
+  deriving Repr
+
+/-- Type word, length in words, body. -/
+def encCat (c : Cat) : List Nat := le16 c.type ++ le16 (c.body.length / 2) ++ c.body
+
+def encCats : List Cat → List Nat
+  | [] => []
+  | c :: cs => encCat c ++ encCats cs
+
+/-- A whole image: 128 bytes of fixed header (word addresses 0x00..0x3F), the categories in the order given,
+    the End marker 0xFFFF. -/
+def encodeSii (hdr : List Nat) (cats : List Cat) : List Nat := hdr ++ encCats cats ++ [0xff, 0xff]
+
+/-- Device memory holding an image; bytes past it read as `fill`. -/
+def imgRd (img : List Nat) (fill : Nat) : Nat → Nat := fun a => img.getD a fill
+
+/-- Number of zero-length categories in a list (the parser gives up after 32 of them). -/
+def empties : List Cat → Nat
+  | [] => 0
+  | c :: cs => (if c.body.length / 2 = 0 then 1 else 0) + empties cs
+
+/-- A category as ETG2010 allows it: 16-bit type, even body shorter than 2^17 bytes. -/
+def Cat.WF (c : Cat) : Prop := c.type < 65536 ∧ c.body.length % 2 = 0 ∧ c.body.length / 2 < 65536
+
+/-- Sync manager as described in the image. -/
+structure SmDesc where
+  start : Nat
+  len : Nat
+  control : Nat
+  status : Nat
+  enable : Nat
+  usage : Nat
+  deriving Repr
+
+/-- ETG2010 Table 11: start, length, control, status (don't care), enable, type. -/
+def encSm (s : SmDesc) : List Nat := le16 s.start ++ le16 s.len ++ [s.control, s.status, s.enable, s.usage]
+
+def SmDesc.WF (s : SmDesc) : Prop :=
+  s.start < 65536 ∧ s.len < 65536 ∧ s.control < 256 ∧ s.status < 256 ∧ s.enable ≤ 15 ∧ s.usage ≤ 4
+
+/-- Strings category body: count, then (length, bytes) per string. -/
+def encStrings (ss : List (List Nat)) : List Nat :=
+  ss.length :: (ss.flatMap fun s => s.length :: s)
+
+/-- The fixed header fields ethercrab reads: identity at word 8, mailbox at word 0x18, size at word 0x3E. -/
+def Header (hdr : List Nat) : Prop := hdr.length = 128
+
 end Ec.EepromSpec
